@@ -386,6 +386,35 @@ def statements(fn):
     return out
 
 
+SIGS = {}
+
+
+def collect_sigs(trees):
+    """parameter names of the package's module-level functions whose name is unique in the package (no *args): used to compare calls
+    independently of whether an argument is passed by position or by keyword"""
+    seen = {}
+    for mod, tree in trees.items():
+        for n in tree.body:
+            if isinstance(n, ast.FunctionDef):
+                seen.setdefault(n.name, []).append(n)
+    SIGS.clear()
+    for name, defs in seen.items():
+        if len(defs) == 1 and not defs[0].args.vararg and not defs[0].args.posonlyargs:
+            SIGS[name] = [a.arg for a in defs[0].args.args]
+
+
+class _KwCalls(ast.NodeTransformer):
+    def visit_Call(self, n):
+        self.generic_visit(n)
+        if isinstance(n.func, ast.Name) and n.func.id in SIGS and not any(isinstance(a, ast.Starred) for a in n.args) and len(n.args) <= len(SIGS[n.func.id]):
+            names = SIGS[n.func.id]
+            kws = [ast.keyword(arg=names[i], value=a) for i, a in enumerate(n.args)] + list(n.keywords)
+            if len({k.arg for k in kws}) == len(kws):
+                n.args = []
+                n.keywords = sorted(kws, key=lambda k: (k.arg is None, str(k.arg)))
+        return n
+
+
 def stmt_blind(s, loc):
     """(digest, names in order of first occurrence) of one statement with the function's local names made anonymous"""
     from .au import canon
@@ -404,6 +433,7 @@ def stmt_blind(s, loc):
         s = canon(s)
     except Exception:
         pass
+    s = _KwCalls().visit(s)
     return hashlib.sha1(ast.dump(s, annotate_fields=False, include_attributes=False).encode()).hexdigest()[:16], order
 
 
@@ -1062,6 +1092,7 @@ def inline_new_constants(trees, stats):
 
 
 def normalise_repo(trees, use_reference=True, stats=None):
+    collect_sigs(trees)
     for tree in trees.values():
         for n in ast.walk(tree):
             if isinstance(n, (ast.FunctionDef, ast.AsyncFunctionDef)):
@@ -1107,6 +1138,32 @@ def normalise_repo(trees, use_reference=True, stats=None):
         link_siblings(tree)
 
 
+def exit_digests(fn):
+    """name-blind digests of everything the function can return: its return expressions and the values assigned to names it returns"""
+    loc = set(local_names(fn))
+    rets = [n for n in _own_nodes(fn) if isinstance(n, ast.Return)]
+    names = {n.value.id for n in rets if isinstance(n.value, ast.Name)}
+    out = set()
+    for n in rets:
+        out.add(stmt_blind(ast.Expr(value=n.value if n.value is not None else ast.Constant(value=None)), loc)[0])
+    if not terminates(fn.body):          # falling off the end is `return None`
+        out.add(stmt_blind(ast.Expr(value=ast.Constant(value=None)), loc)[0])
+    for n in _own_nodes(fn):
+        if isinstance(n, ast.Assign) and len(n.targets) == 1 and isinstance(n.targets[0], ast.Name) and n.targets[0].id in names:
+            out.add(stmt_blind(ast.Expr(value=n.value), loc)[0])
+    return sorted(out)
+
+
+def _own_nodes(fn):
+    todo = list(fn.body)
+    while todo:
+        n = todo.pop()
+        yield n
+        for c in ast.iter_child_nodes(n):
+            if not isinstance(c, (ast.FunctionDef, ast.AsyncFunctionDef, ast.ClassDef, ast.Lambda)):
+                todo.append(c)
+
+
 def make_reference(trees):
     out = {}
     for mod, tree in trees.items():
@@ -1118,7 +1175,7 @@ def make_reference(trees):
             webs.split(f2, fn_scope_locals(f2))
             h, order = blind(f2)
             comps = sorted({stmt_blind(ast.Expr(value=c), set(local_names(fn)))[0] for c in [ast.ListComp(elt=g.elt, generators=g.generators) if isinstance(g, ast.GeneratorExp) else g for g in ast.walk(fn)] if isinstance(c, (ast.ListComp, ast.DictComp, ast.SetComp))})
-            out[key] = dict(blind=h, names=order, stmts=stm, plain=blind(fn)[0], comps=comps)
+            out[key] = dict(blind=h, names=order, stmts=stm, plain=blind(fn)[0], comps=comps, exits=exit_digests(fn))
     mods = {mod: sorted({t.id for n in tree.body if isinstance(n, ast.Assign) for t in n.targets if isinstance(t, ast.Name)}) for mod, tree in trees.items()}
     return dict(functions=out, module_names=mods)
 
